@@ -880,6 +880,7 @@ func c48JudgeNodes(t c48T, env *c48Env, req *GetTrieNodesPacket, res *TrieNodesP
 	malformed := c48PathsMalformed(req)
 	// flatten the request into lookups, up to the first malformed element
 	var lookups []c48Lookup
+	uncertain := false
 	it := req.Paths.ContentIterator()
 outer:
 	for it.Next() {
@@ -895,6 +896,7 @@ outer:
 		for len(content) > 0 {
 			k2, c, rest, err := rlp.Split(content)
 			if err != nil {
+				uncertain = true // invalid RLP inside a path set: how far the server gets is unspecified
 				break outer
 			}
 			items = append(items, item{k2 == rlp.List, c})
@@ -914,12 +916,12 @@ outer:
 				break outer
 			}
 			acct := model.ByHash[common.BytesToHash(items[0].b)]
+			if acct == nil {
+				continue // the server skips the whole set without looking at its paths
+			}
 			for _, p := range items[1:] {
 				if p.list {
 					break outer
-				}
-				if acct == nil {
-					continue
 				}
 				hex, wild := c48CompactToHex(p.b)
 				lookups = append(lookups, c48Lookup{want: acct.St.Nodes[string(hex)], wild: wild, tr: acct.St})
@@ -947,6 +949,9 @@ outer:
 				matched = l.want != nil && bytes.Equal(l.want, blob)
 			}
 			j++
+		}
+		if !matched && uncertain {
+			break
 		}
 		if !matched {
 			t.Fatalf("TrieNodes item %d (%d bytes, hash %x) does not correspond, in order, to any requested path (root %x, %d lookups, paths %x)",
